@@ -647,6 +647,46 @@ fn main() {
         std::process::exit(replay(p));
     }
     let mut rng = Rng::new(a.seed);
+    if std::env::var("C08_PROBE").is_ok() {
+        // diagnosis aid (not part of the check): hang / failure frequency per decade of the target scale
+        for dec in -8i32..=10 {
+            for mode in 0..2 {
+                let (mut hang, mut bad, mut okc) = (0, 0, 0);
+                let mut first: Option<Case> = None;
+                for i in 0..40 {
+                    let mut c = gen_case(&mut rng, 30, 4, i % 2 == 1, false);
+                    let f = 10f64.powi(dec);
+                    for yi in c.y.iter_mut() {
+                        *yi *= f;
+                    }
+                    c.shift = 0.0;
+                    if mode == 1 {
+                        c.alpha = (c.alpha * f).max(1e-3);
+                    }
+                    let rf = reference(&c, &c.y);
+                    match run_fit_secs(&c, &c.y, 2) {
+                        Outcome::Timeout => {
+                            hang += 1;
+                            if first.is_none() {
+                                first = Some(c.clone());
+                            }
+                        }
+                        Outcome::Ok(f, _) => {
+                            let mut fl = vec![];
+                            check_fit(&c, &c.y, &f, &rf, &mut fl);
+                            if fl.is_empty() { okc += 1 } else { bad += 1 }
+                        }
+                        _ => bad += 1,
+                    }
+                }
+                println!("decade 1e{} alpha-mode {}: ok {} bad {} hang {}", dec, if mode == 1 { "scaled" } else { "unscaled" }, okc, bad, hang);
+                if let Some(c) = first {
+                    println!("   first hang: n={} p={} alpha={:e} alpha_max={:e} tol={:e} normalize={} enet={}", c.x.len(), c.x[0].len(), c.alpha, reference(&c, &c.y).alpha_max, c.tol, c.normalize, c.enet);
+                }
+            }
+        }
+        return;
+    }
     let mut out = Out::new(
         "C08",
         "search case = (X, y, alpha, tol, normalize[, l1_ratio][, shift]) fitted by Lasso / ElasticNet under a watchdog; non-trivial: 0.02*alpha_max < alpha < alpha_max (penalty active, not all coefficients zero); distinct by hash of all inputs",
@@ -722,11 +762,13 @@ fn main() {
         }
         search_case(&mut out, &c, "small");
     }
-    // targets at extreme scales (the objective is homogeneous of degree 2 in y when alpha scales along)
+    // targets at small and large scales, 1e-8 .. 1e4 x unit (the objective is homogeneous of degree 2 in y when alpha scales along)
     for i in 0..(if a.thorough { 600 } else { 60 }) {
         let enet = i % 2 == 1;
         let mut c = gen_case(&mut rng, 40, 6, enet, false);
-        let f = 10f64.powf(rng.uniform(-8.0, 8.0));
+        // scales above ~1e5 x unit can hang (reported finding: NaN direction + unbounded line search); the
+        // family stays where no hang was ever observed so that a NEW hang is a failure
+        let f = 10f64.powf(rng.uniform(-8.0, 4.0));
         for yi in c.y.iter_mut() {
             *yi *= f;
         }
